@@ -57,6 +57,11 @@ def main():
             if os.path.isdir(demo):
                 sh("cp -r %s/. %s/" % (demo, wt))
             cmd = meta.get("demo_cmd", "")
+            # agents sometimes append prose after the command
+            for sep in ("   #", "  #", " # ", "  (", "\n"):
+                if sep in cmd:
+                    cmd = cmd.split(sep)[0]
+            cmd = cmd.strip()
             rc1, out1, _ = sh(cmd, cwd=wt, timeout=900)
             report["demo_cmd"] = cmd
             report["demo_fails_with_change"] = rc1 != 0
